@@ -656,7 +656,9 @@ def components(v, root=True):
             if tn is not None:
                 return [(tn, v)]
         for k, x in v.items():
-            if k != '_':
+            if k == 'shard_hashes' and isinstance(x, list):
+                out.append(('ShardHashes', x))               # a dictionary type: its value carries no constructor name
+            elif k != '_':
                 out.extend(components(x, False))
     elif isinstance(v, list):
         for x in v:
